@@ -487,15 +487,33 @@ func (c09) Eval(c *Chooser, env *Env) *Outcome {
 		if len(g.blocks) == 1 {
 			orig := g.blocks[0]
 			mod := orig
-			if at := insertUnrelatedStep(c, &mod); at > 0 {
+			c09InsertDynamicID = c.Weighted("world.insdynamic", 1, 4)
+			dyn := c09InsertDynamicID
+			at := insertUnrelatedStep(c, &mod)
+			c09InsertDynamicID = false
+			if at > 0 {
 				r1 := lintAlone(o, header, []c09Block{orig}, g.assets, cfg)
 				r2 := lintAlone(o, header, []c09Block{mod}, g.assets, cfg)
 				if r1.failed == nil && r2.failed == nil && r1.fatal == "" && r2.fatal == "" {
 					o.probe("step_insertions_checked", 1)
 					want := shiftRel(r1.perBlock[0], at)
-					if !relEqual(want, r2.perBlock[0]) {
-						o.V = &Violation{Oracle: "step-independence", Class: "step-diff:" + diffKinds(want, r2.perBlock[0]),
-							Message: fmt.Sprintf("inserting an unrelated step (no id) at line +%d of job %q changes the diagnostics of the job beyond the line offset.\n  expected (original shifted):\n%s  got:\n%s", at, orig.id, relString(want), relString(r2.perBlock[0])),
+					got := r2.perBlock[0]
+					if dyn {
+						// only the steps before the inserted one are compared
+						before := func(ds []relDiag) []relDiag {
+							var out []relDiag
+							for _, d := range ds {
+								if d.Line < at && !strings.Contains(d.Msg, "line:") {
+									out = append(out, d)
+								}
+							}
+							return out
+						}
+						want, got = before(r1.perBlock[0]), before(r2.perBlock[0])
+					}
+					if !relEqual(want, got) {
+						o.V = &Violation{Oracle: "step-independence", Class: "step-diff:" + diffKinds(want, got),
+							Message: fmt.Sprintf("inserting an unrelated step (no id; or, compared for the earlier steps only, one with a computed id: %v) at line +%d of job %q changes the diagnostics of the job beyond the line offset.\n  expected (original shifted):\n%s  got:\n%s", dyn, at, orig.id, relString(want), relString(got)),
 							Detail:  map[string]any{"job": mod.text}}
 						return o
 					}
@@ -857,6 +875,9 @@ func diffKinds(a, b []relDiag) string {
 
 // insertUnrelatedStep inserts a step without id into the first steps: list of
 // the block (found with yaml.v3), shifting nothing else.
+// c09InsertDynamicID makes insertUnrelatedStep insert a step with a computed id instead.
+var c09InsertDynamicID bool
+
 func insertUnrelatedStep(c *Chooser, blk *c09Block) int {
 	var doc yaml.Node
 	if yaml.Unmarshal([]byte(blk.text), &doc) != nil || len(doc.Content) != 1 || doc.Content[0].Kind != yaml.MappingNode || len(doc.Content[0].Content) < 2 {
@@ -887,6 +908,11 @@ func insertUnrelatedStep(c *Chooser, blk *c09Block) int {
 			return 0
 		}
 		ins := strings.Repeat(" ", dash) + "- run: echo unrelated step\n"
+		if c09InsertDynamicID {
+			// a step whose id is computed: it may change what later steps can refer to, never earlier ones
+			ins = strings.Repeat(" ", dash) + "- id: ${{ matrix.some-dynamic-id }}\n" + strings.Repeat(" ", dash) + "  run: echo step with a computed id\n"
+			blk.lines++
+		}
 		out := append([]string{}, lines[:st.Line-1]...)
 		out = append(out, ins)
 		out = append(out, lines[st.Line-1:]...)
